@@ -39,6 +39,23 @@ type Header struct {
 	Acts       []string  `json:"acts"`
 	Precreated bool      `json:"precreated"`
 	Jobs       []JobDef  `json:"-"` // from the JHEADER line of spec/Jobs.tla configurations
+	Ms         *MsDef    `json:"-"` // from the MHEADER line of spec/MultiSource.tla configurations
+}
+
+// MsJoin / MsDep / MsDef: the MultiSource job of a spec/MultiSource.tla configuration.
+type MsJoin struct {
+	Ds   string `json:"ds"`
+	Pred string `json:"pred"`
+	Inv  bool   `json:"inv"`
+}
+type MsDep struct {
+	Ds    string   `json:"ds"`
+	Joins []MsJoin `json:"joins"`
+}
+type MsDef struct {
+	Base Header  `json:"base"`
+	Main string  `json:"main"`
+	Deps []MsDep `json:"deps"`
 }
 
 // JobDef is one job definition of a Jobs.tla configuration.
@@ -163,6 +180,13 @@ type Step struct {
 	End   bool   `json:"end,omitempty"`
 	Run   int    `json:"run,omitempty"`
 	X     *StepX `json:"x,omitempty"` // what the specification requires of this step's own answer
+
+	// MultiSource catch-up steps (spec/MultiSource.tla)
+	Required []string        `json:"required,omitempty"`
+	First    bool            `json:"first,omitempty"`
+	AllowedE []string        `json:"allowed,omitempty"`
+	MainTok  uint64          `json:"maintok,omitempty"`
+	DepTok   json.RawMessage `json:"deptok,omitempty"`
 
 	// job steps (spec/Jobs.tla)
 	J         int      `json:"j,omitempty"`
@@ -326,6 +350,17 @@ func ReadTLC(path string, stride, offset int, fn func(idx int, b *Behaviour) err
 					}
 				}
 				idx++
+			} else if strings.HasPrefix(line, `<<"MHEADER"`) {
+				payload, ok := ParseTLCLine(line, "MHEADER")
+				if ok {
+					md := &MsDef{}
+					if e := json.Unmarshal(payload, md); e != nil {
+						return nil, idx, fmt.Errorf("MHEADER: %v", e)
+					}
+					h := md.Base
+					h.Ms = md
+					hdr = &h
+				}
 			} else if strings.HasPrefix(line, `<<"JHEADER"`) {
 				payload, ok := ParseTLCLine(line, "JHEADER")
 				if ok {
@@ -337,7 +372,7 @@ func ReadTLC(path string, stride, offset int, fn func(idx int, b *Behaviour) err
 					h.Jobs = jh.Jobs
 					hdr = &h
 				}
-			} else if strings.HasPrefix(line, `<<"HEADER"`) && (hdr == nil || len(hdr.Jobs) == 0) {
+			} else if strings.HasPrefix(line, `<<"HEADER"`) && (hdr == nil || (len(hdr.Jobs) == 0 && hdr.Ms == nil)) {
 				payload, ok := ParseTLCLine(line, "HEADER")
 				if ok {
 					h := &Header{}
